@@ -90,10 +90,15 @@ func shapeOfFile(path string) ([]string, error) {
 	return out, nil
 }
 
-func writeShape(repo, propsPath, id, outDir string) error {
+func writeShape(repo, propsPath, id, outDir, extra string) error {
 	files, err := anchorFiles(propsPath, id)
 	if err != nil {
 		return err
+	}
+	for _, e := range strings.Split(extra, ",") {
+		if e = strings.TrimSpace(e); e != "" {
+			files = append(files, e)
+		}
 	}
 	sort.Strings(files)
 	var sb strings.Builder
